@@ -278,28 +278,28 @@ Definition atom_row (discard_h first_only : bool) (hdr : list text) (s : rst) (r
   match element with
   | None => q_err s (e1 ++ [missing tt])
   | Some element =>
-  if (discard_h && text_eqb element (stext "H"))%bool then q_err s e1 else
+  let '(name, e4) := column get_text' hdr row "atom_site.label_atom_id" in
+  match name with
+  | None => q_err s (e1 ++ e4 ++ [missing tt])
+  | Some name =>
+  if (discard_h && is_hydrogen element name)%bool then q_err s (e1 ++ e4) else
   let '(model_number, e2) := column get_usize hdr row "atom_site.pdbx_PDB_model_num" in
   let model_number := match model_number with Some n => n | None => 1 end in
   let stop := (first_only && match q_first s with Some f => negb (Z.eqb f model_number) | None => false end)%bool in
-  if stop then {| q_models := q_models s; q_errors := (q_errors s ++ e1 ++ e2)%list; q_ids := q_ids s; q_dups := q_dups s;
+  if stop then {| q_models := q_models s; q_errors := (q_errors s ++ e1 ++ e4 ++ e2)%list; q_ids := q_ids s; q_dups := q_dups s;
                   q_first := q_first s; q_stop := true |} else
   let first := if first_only then (match q_first s with None => Some model_number | f => f end) else q_first s in
-  let s := {| q_models := q_models s; q_errors := (q_errors s ++ e1 ++ e2)%list; q_ids := q_ids s; q_dups := q_dups s;
+  let s := {| q_models := q_models s; q_errors := (q_errors s ++ e1 ++ e4 ++ e2)%list; q_ids := q_ids s; q_dups := q_dups s;
               q_first := first; q_stop := false |} in
   let '(atom_type, e3) := column get_text' hdr row "atom_site.group_PDB" in
   let atom_type := match atom_type with Some t => t | None => stext "ATOM" end in
-  let '(name, e4) := column get_text' hdr row "atom_site.label_atom_id" in
-  match name with
-  | None => q_err s (e3 ++ e4 ++ [missing tt])
-  | Some name =>
   let '(id, e5) := column get_text' hdr row "atom_site.id" in
   match id with
-  | None => q_err s (e3 ++ e4 ++ e5 ++ [missing tt])
+  | None => q_err s (e3 ++ e5 ++ [missing tt])
   | Some id =>
   let '(residue_name, e6) := column get_text' hdr row "atom_site.label_comp_id" in
   match residue_name with
-  | None => q_err s (e3 ++ e4 ++ e5 ++ e6 ++ [missing tt])
+  | None => q_err s (e3 ++ e5 ++ e6 ++ [missing tt])
   | Some residue_name =>
   let '(auth_seq, e7) := column get_isize hdr row "atom_site.auth_seq_id" in
   let '(residue_number, e8) :=
@@ -314,7 +314,7 @@ Definition atom_row (discard_h first_only : bool) (hdr : list text) (s : rst) (r
     | Some c => (Some c, [])
     | None => column get_text' hdr row "atom_site.label_asym_id"
     end in
-  let pre := (e3 ++ e4 ++ e5 ++ e6 ++ e7 ++ e8 ++ e9 ++ e10)%list in
+  let pre := (e3 ++ e5 ++ e6 ++ e7 ++ e8 ++ e9 ++ e10)%list in
   match chain_name with
   | None => q_err s (pre ++ [missing tt])
   | Some chain_name =>
